@@ -123,6 +123,60 @@ func renderSegs(segs []tseg) string {
 	return strings.Join(parts, "/")
 }
 
+// shapeOf renders the trie edges a template walks: literals as they are, every variable
+// (named or bare wildcard) as its pattern in braces. Two templates with equal shapes and
+// kinds end at the same trie node slot.
+func shapeOf(t ttmpl) (shape string, fields []string) {
+	var parts []string
+	for _, s := range t.segs {
+		switch s.kind {
+		case sLit:
+			parts = append(parts, s.lit)
+		case sStar:
+			parts = append(parts, "{*}")
+			fields = append(fields, "_")
+		case sStarStar:
+			parts = append(parts, "{**}")
+			fields = append(fields, "_")
+		case sVar:
+			pat := "*"
+			if s.sub != nil {
+				pat = renderSegs(s.sub)
+			}
+			parts = append(parts, "{"+pat+"}")
+			fields = append(fields, s.field)
+		}
+	}
+	return "/" + strings.Join(parts, "/") + ":" + t.verb, fields
+}
+
+// ambiguousSameMethod: two bindings of ONE method on the same kind whose templates walk the
+// same trie edges but bind other fields, another body or another response body. larking
+// keeps whichever was registered first and silently ignores the other (recorded finding).
+func ambiguousSameMethod(rules []rrule) map[int]bool {
+	type key struct {
+		m           int
+		kind, shape string
+	}
+	seen := map[key]string{}
+	amb := map[int]bool{}
+	for _, r := range rules {
+		for _, b := range append([]rbind{r.primary}, r.additional...) {
+			if b.raw != "" {
+				continue
+			}
+			shape, fields := shapeOf(b.t)
+			k := key{r.method, strings.ToUpper(b.kind), shape}
+			bind := strings.Join(fields, ",") + "|" + b.body + "|" + b.resp
+			if old, ok := seen[k]; ok && old != bind {
+				amb[r.method] = true
+			}
+			seen[k] = bind
+		}
+	}
+	return amb
+}
+
 func (t ttmpl) String() string {
 	s := "/" + renderSegs(t.segs)
 	if t.verb != "" {
